@@ -140,8 +140,16 @@ def generate() -> dict[str, str]:
     if not isinstance(default_wait, int):
         default_wait = int(getenv().bgp.openwait)
 
+    # `HoldTime.keepalive()` is written with a true division (`int(self / DIVISOR)`): floating point.  Every hold time a
+    # session can have is a 16-bit number, so the method is simply run on all of them and compared with the floor
+    # division the model uses; the exceptions (none) are the generated fact.
+    ka_deviations = [h for h in range(int(HoldTime.MAX) + 1) if int(HoldTime(h).keepalive()) != h // int(HoldTime.KEEPALIVE_DIVISOR)]
     pair = lambda p: f'({p[0]}, {p[1]})'
     lean = f'''namespace Exa.Generated.TimerTable
+
+/-- the hold times 0 … `HoldTime.MAX` for which `HoldTime(h).keepalive()` (a float division truncated by `int`)
+    is not `h / KEEPALIVE_DIVISOR` rounded down: the real method run on every one of them on this run -/
+def keepaliveDeviations : List Nat := [{', '.join(map(str, ka_deviations[:50]))}]
 
 /-- `HoldTime.MIN`, `HoldTime.MAX`, `HoldTime.KEEPALIVE_DIVISOR` -/
 def holdMin : Nat := {int(HoldTime.MIN)}
